@@ -196,8 +196,14 @@ def rule_cn(ctx):
         rep.ob('CN', K.key(cls, '__init__', 'counter-starts-at-zero(%s)' % attr), ok, st[0] if st else ini.node,
                '' if ok else 'self.%s must be created as a fresh list of %d zero(s), unconditionally; found %s' % (
                    attr, size, A.short(st[0].value) if st else 'no assignment'))
+    def called_from_fetch(mn):
+        # private helpers of the wrapper that the two fetch methods call directly
+        return mn.startswith('_') and not mn.startswith('__') and any(
+            isinstance(x, ast.Call) and A.is_self_attr(x.func, mn)
+            for fm in ('__iter__', '__getitem__') if cls.own(fm) is not None for x in A.walk_local(cls.own(fm).node))
     writers = sorted({'%s.%s' % (c.name, mn) for c in ctx.repo.classes.values() for mn, m_ in c.members.items()
                       if m_.is_function and mn not in ('__iter__', '__getitem__', '__init__', 'copy')
+                      and not (c is cls and called_from_fetch(mn))
                       for n in A.walk_local(m_.node)
                       if isinstance(n, (ast.Assign, ast.AugAssign)) and any(
                           isinstance(x, ast.Attribute) and x.attr == 'hit_count'
@@ -211,6 +217,17 @@ def rule_cn(ctx):
         fn = mem.node
         tries = [n for n in A.walk_local(fn) if isinstance(n, ast.Try)]
         if len(tries) != 1:
+            # the timed fetch may have been moved into a private method of the wrapper (that was not inlined because it
+            # changes how exhaustion is signalled): this rule then cannot decide the counting discipline
+            helpers = [cls.resolve(c.func.attr) for c in A.walk_local(fn) if isinstance(c, ast.Call) and A.is_self_attr(c.func)
+                       and c.func.attr.startswith('_') and cls.resolve(c.func.attr) is not None]
+            moved = [h for h in helpers if h.is_function and any(isinstance(x, ast.Try) for x in A.walk_local(h.node))
+                     and any(isinstance(x, ast.AugAssign) and _is_counter(x.target, 'hit_count', 0) for x in A.walk_local(h.node))]
+            if not tries and moved:
+                rep.undecided('CN', K.key(cls, mname, 'one-fetch-try'), fn,
+                              'the counted fetch lives in the helper %s (different exhaustion protocol): counting rules not decided'
+                              % moved[0].name)
+                continue
             rep.ob('CN', K.key(cls, mname, 'one-fetch-try'), False, fn, 'expected exactly one try around the fetch, found %d' % len(tries))
             continue
         t = tries[0]
